@@ -4,6 +4,7 @@ pub mod corpus;
 pub mod derive;
 pub mod determinism;
 pub mod evalorder;
+pub mod attributes;
 pub mod discard;
 pub mod externs;
 pub mod fnvalues;
@@ -57,6 +58,7 @@ pub fn all() -> Vec<Box<dyn Family>> {
         Box::new(fnvalues::FnValues),
         Box::new(externs::Externs),
         Box::new(discard::Discard),
+        Box::new(attributes::Attributes),
         Box::new(generics::Generics),
         Box::new(methods::Methods),
         Box::new(derive::Derive),
